@@ -207,3 +207,95 @@ def _checkout_native(repo, con, fdef, ob, model):
 
 
 REG.get(f"{M}:_checkout").replay = _checkout_native
+
+
+# =====================================================================================================
+# C10: "the link record it saves matches the resulting workspace" -- hashfile/utils.py:_get_mtime_from_changes
+# =====================================================================================================
+from pyvc.specfn import str_join  # noqa: E402
+from contracts.state import now_info  # noqa: E402
+from specs.heap import FileSystem as _FS  # noqa: E402
+
+MT = TOMap(TStr, TReal)
+U = "dvc_data.hashfile.utils"
+EXC_ATTRS[("FileNotFoundError", "errno")] = TInt
+
+
+def mt_now(c, p):
+    """the mtime the file at p has now (stat through the local filesystem; nothing under contract here writes files)"""
+    return now_info(c.fs, p).mtime
+
+
+def entry_path(c, key):
+    """sep.join((path, *key)) -- the very term the code builds"""
+    sep = c.h0.get("FileSystem.sep", c.fs)
+    return str_join(c.engine, sep, TKey.unit(c.path) + key if hasattr(TKey, "unit") else SV(z3.Concat(z3.Unit(c.path.t), key.t), TKey))
+
+
+def wf_core(c, m):
+    """the provable part of a dict's well-formedness: listed keys are pairwise distinct and members of the ghost domain
+    (the witness-function clause of omap_wf is an axiom about list membership, not something a loop can re-establish)"""
+    ks = m.ty.keys(m)
+    i, j = z3.Int("i!wfc"), z3.Int("j!wfc")
+    return SV(z3.And(z3.ForAll([i, j], z3.Implies(z3.And(0 <= i, i < j, j < ks.length().t), ks[SV(i, TInt)].t != ks[SV(j, TInt)].t)),
+                     z3.ForAll([i], z3.Implies(z3.And(0 <= i, i < ks.length().t), specfn.list_elems(ks).contains(ks[SV(i, TInt)]).t))), TBool)
+
+
+def current(c, m):
+    """every mtime recorded in m is the mtime its file has now"""
+    p = SV(z3.String("p!cur"), TStr)
+    return SV(z3.ForAll([p.t], z3.Implies(c.engine.omap_dom(m).contains(p).t, MT.at(m, p).t == mt_now(c, p).val.t)), TBool)
+
+
+def _gm_pre(c):
+    k = TInt.fresh("k!un")
+    Un = c.diff.unchanged
+    u = Un[k].old
+    ep_ = entry_path(c, u.key)
+    return And(
+        c.h.get("FileSystem.is_local", c.fs),
+        c.engine.omap_wf(c.updated_mtimes),
+        # mtimes noted right after each file was (re)created by this checkout are current ...
+        current(c, c.updated_mtimes),
+        # ... and a file this checkout did not touch still has the mtime it was staged with
+        ForAll([k], Implies(And(k >= 0, k < Un.length(), u.key != ROOT, u.meta.is_some, u.meta.val.mtime.is_some,
+                                Not(c.engine.omap_dom(c.updated_mtimes).contains(ep_))),
+                            u.meta.val.mtime.val == mt_now(c, ep_).val)),
+    )
+
+
+contract(
+    f"{U}:_tokenize_mtimes",
+    params=dict(files_mtimes=MT),
+    returns=TStr,
+    requires=lambda c: SV(z3.BoolVal(True), TBool),
+    assumed=True, verify=False, pure=True,
+    doc="md5 of the sorted json of the map (hashlib/json: external); its use by _get_mtime_from_changes is pinned by that function's hint",
+)
+contract(
+    f"{U}:_get_mtime_from_changes",
+    params=dict(path=TStr, fs=_FS, diff=DiffResult, updated_mtimes=MT),
+    returns=TStr,
+    requires=_gm_pre,
+    raises={"FileNotFoundError": (None, None)},
+    invariants={0: lambda c: And(wf_core(c, c.loc.mtimes), current(c, c.loc.mtimes),
+                                 c.engine.omap_dom(c.updated_mtimes).subset(c.engine.omap_dom(c.loc.mtimes)))},
+    locals=dict(mtimes=MT),
+    pure=False,
+    modifies=lambda c: [],
+    # the token handed to the link record is taken of a map in which every recorded mtime is the file's current one
+    hints={"_tokenize_mtimes": lambda c: current(c, c.loc.mtimes) if "mtimes" in c.loc else lift(True)},
+    props=["C10"],
+    doc="directory token from applied changes: every mtime that enters the token is the current mtime of its file "
+        "(entries re-created by this checkout take the fresh value, untouched ones the staged value)",
+)
+
+contract(
+    f"{M}:checkout.converge",
+    params={},
+    assumed=True, verify=False,
+    bounded=("bounded/checkout_converge.py", 288, 4000),
+    props=["C10"],
+    doc="[bounded only] whole checkout(): forced checkout converges to the target, is idempotent, honours the configured link type, "
+        "leaves cache bytes alone, and saves a link record that matches the workspace",
+)
